@@ -39,6 +39,8 @@ def run(repo, report, tier):
     report.guard("C12.R1", "process run() methods", r1_total, repo, report)
     report.guard("C12.R2", "sentinels", r2_sentinels, repo, report)
     report.guard("C12.R3", "main", r3_exit, repo, report)
+    report.guard("C12.R3", "logging configuration", r3_logging, repo, report)
+    report.guard("C12.R3", "quality characters are validated", r3_quality_validation, repo, report)
     report.guard("C12.R4", "package sweep", r4_sweep, repo, report)
     report.guard("C12.R5", "paired reader", r5_paired, repo, report)
     report.trust("dnaio raises FileFormatError (incl. FASTA/FASTQ subclasses), UnknownFileFormat, EOFError or OSError for malformed / truncated input (dnaio 1.2.4 exceptions.py, readers)")
@@ -351,3 +353,74 @@ def _maybe_unbound_in_handler(fn, tr, h):
             if isinstance(x, ast.Name) and isinstance(x.ctx, ast.Store):
                 local_in_handler.add(x.id)
     return out
+
+
+_LEVELS_UP_TO_ERROR = {"logging.DEBUG", "logging.INFO", "REPORT", "logging.WARNING", "logging.WARN", "logging.ERROR", "stderr_level"}
+
+
+def r3_logging(repo, report):
+    """main() reports an input error with logger.error(...).  The message is visible only if, in EVERY logging
+    configuration, the logger lets ERROR records through and some attached handler writes them to standard error
+    without filtering them out."""
+    fn = repo.func("log", "setup_logging")
+    if fn is None:
+        raise Unrecognised("log.setup_logging not found")
+    ps = params(fn)
+
+    def hook(ex, node, env):
+        if isinstance(node.func, ast.Name) and node.func.id.endswith("Handler") and node.args:
+            return Obj(f"H{node.lineno}<{vkey(ex.ev(node.args[0], env))}>", nonnull=True)
+        return None
+
+    env = {ps[0]: Obj("LOGGER", nonnull=True)}
+    for p_ in ps[1:]:
+        env[p_] = Obj(p_.upper())
+    rows = explore(repo, strip_docstring(fn.body), env, call_hook=hook, inline=False)
+    report.saw(function="log.setup_logging", valuations=len(rows))
+    bad = []
+    for r in rows:
+        if r.exit[0] == "raise":
+            continue
+        texts = [c[0] for c in r.calls]
+        added = [t[len("LOGGER.addHandler("):-1] for t in texts if t.startswith("LOGGER.addHandler(")]
+        lvl = [t[len("LOGGER.setLevel("):-1] for t in texts if t.startswith("LOGGER.setLevel(")]
+        ok_logger = all(x in _LEVELS_UP_TO_ERROR for x in lvl)
+        good = []
+        for h in added:
+            if "<sys.stderr>" not in h:
+                continue
+            if any(t.startswith(h + ".addFilter(") for t in texts):
+                continue
+            hl = [t[len(h) + len(".setLevel("):-1] for t in texts if t.startswith(h + ".setLevel(")]
+            if all(x in _LEVELS_UP_TO_ERROR for x in hl):
+                good.append(h)
+        if not ok_logger or not good:
+            bad.append({"configuration": r.describe()["valuation"], "handlers": added, "logger_level": lvl})
+    report.ob("C12.R3", "setup_logging: ERROR records reach standard error in every configuration", not bad and len(rows) >= 4, facts={"configurations": len(rows), "problems": bad[:2]}, cases=len(rows),
+              expected="an unfiltered handler on sys.stderr with level <= ERROR is attached, and the logger's level is <= ERROR, whatever log_to_stderr/minimal/quiet/debug are", loc=repo.loc(fn),
+              why=(f"in configuration {bad[0]['configuration']} no handler lets an error message through to standard error: a run on broken input ends with exit status 1 and no message" if bad else ""))
+
+
+def r3_quality_validation(repo, report):
+    """A corrupted quality character is noticed (ValueError -> error exit) only by expected_errors(); the two error
+    filters must therefore hand the qualities of EVERY non-empty read to it - no shortcut that decides without looking."""
+    n = 0
+    for cname in ("TooManyExpectedErrors", "TooHighAverageErrorRate"):
+        c, fn = repo.method(cname, "test")
+        if fn is None:
+            continue
+        ps = params(fn)
+        rows = explore(repo, strip_docstring(fn.body), {"self": Obj("self", nonnull=True), ps[1]: Obj("READ", nonnull=True), **({ps[2]: Obj("INFO", nonnull=True)} if len(ps) > 2 else {})}, inline=False)
+        bad = []
+        for r in rows:
+            if r.exit[0] != "return":
+                continue
+            looked = any(c_[0].startswith("expected_errors(READ.qualities") for c_ in r.calls)
+            empty = any(k.replace(" ", "") in ("sign:len(READ)", "sign:len(READ.sequence)", "sign:len(READ.qualities)") and v == 0 for k, v in r.valuation.items()) or r.valuation.get("truthy:READ") is False
+            if not looked and not empty:
+                bad.append(r.describe()["valuation"])
+        n += 1
+        report.ob("C12.R3", f"{cname}.test looks at the qualities of every non-empty read", not bad, facts={"paths": len(rows), "paths_without_validation": bad[:2]}, loc=repo.loc(fn),
+                  expected="expected_errors(read.qualities, ...) is evaluated on every path except for the empty read",
+                  why=(f"on the path {bad[0]} the filter decides without decoding the qualities: an invalid quality character in such a read goes unnoticed and the run exits 0" if bad else ""))
+    report.floor("C12.R3", "error filters", n, 2)
